@@ -65,5 +65,10 @@ def debugString (s : Set) : String :=
   if s.length < 16 then "RoaringBitmap<[" ++ ", ".intercalate (s.map toString) ++ "]>"
   else s!"RoaringBitmap<{s.length} values between {s.head?.getD 0} and {s.getLast?.getD 0}>"
 
+/-- `format!("{:?}", treemap)` (treemap/fmt.rs): the same rule over `u64` values -/
+def debugString64 (s : Set) : String :=
+  if s.length < 16 then "RoaringTreemap<[" ++ ", ".intercalate (s.map toString) ++ "]>"
+  else s!"RoaringTreemap<{s.length} values between {s.head?.getD 0} and {s.getLast?.getD 0}>"
+
 end Spec
 end Roaring
